@@ -53,6 +53,21 @@ Definition expected (k : pkind) : option conv :=
 Definition needs_copyout (k : pkind) : bool :=
   String.eqb (k_group k) "string" && (String.eqb (k_ptrs k) "&") && (String.eqb (k_intent k) "out" || String.eqb (k_intent k) "inout").
 
+(* how the callee's result reaches the C caller *)
+Inductive rconv :=
+| RNone          (* nothing returned *)
+| RDirect        (* the value of the call, returned as is (numbers, bool, pointers, C strings) *)
+| RCastBack      (* static_cast<int>(enum value) *)
+| RCStr          (* .c_str() of the std::string the callee returned by reference *)
+| RShadow        (* the object's address stored in the caller's capsule, which is returned *)
+| RGlue          (* delivered through an argument (bufferify variants, destructor) *)
+| RUnknown.
+Definition rconv_eqb (a b : rconv) : bool :=
+  match a, b with
+  | RNone, RNone | RDirect, RDirect | RCastBack, RCastBack | RCStr, RCStr | RShadow, RShadow | RGlue, RGlue => true
+  | _, _ => false
+  end.
+
 Record wrapper := {
   w_name : string;
   w_kind : string;                              (* function | method | static | ctor | dtor *)
@@ -61,8 +76,31 @@ Record wrapper := {
   w_params : list (string * pkind);             (* the C++ parameters in declaration order *)
   w_args : list (conv * string);                (* the actual arguments of the C++ call, in call order: conversion, C parameter *)
   w_copyouts : list string;                     (* C parameters that receive a string copy after the call *)
-  w_unknown : nat                               (* statements of the body the extractor did not recognise *)
+  w_unknown : nat;                              (* statements of the body the extractor did not recognise *)
+  w_rkind : pkind;                              (* kind of the C++ result *)
+  w_result : rconv;                             (* how the body returns it *)
+  w_buf : bool                                  (* a bufferify variant: the result travels through an argument *)
 }.
+
+(* the documented way a result of a given kind is returned; None = outside the covered grammar *)
+Definition expected_result (w : wrapper) : option rconv :=
+  let k := w_rkind w in let g := k_group k in
+  if w_buf w then Some RGlue
+  else if String.eqb (w_kind w) "ctor" then Some RShadow
+  else if String.eqb (w_kind w) "dtor" then Some RGlue
+  else if String.eqb g "void" && String.eqb (k_ptrs k) "" then Some RNone
+  else if String.eqb g "native" || String.eqb g "bool" || String.eqb g "char" || String.eqb g "void" then Some RDirect
+  else if String.eqb g "enum" then (if String.eqb (k_ptrs k) "" then Some RCastBack else None)
+  else if String.eqb g "string" then (if String.eqb (k_ptrs k) "" then None else Some RCStr)
+  else if String.eqb g "shadow" then Some RShadow
+  else None.
+
+Definition result_ok (w : wrapper) : bool :=
+  match expected_result w with
+  | Some r => rconv_eqb (w_result w) r
+              || (w_buf w && (rconv_eqb (w_result w) RNone || rconv_eqb (w_result w) RDirect || rconv_eqb (w_result w) RCastBack || rconv_eqb (w_result w) RShadow))
+  | None => true
+  end.
 
 Fixpoint args_ok (ps : list (string * pkind)) (args : list (conv * string)) : bool :=
   match ps, args with
